@@ -8,6 +8,7 @@ cd $W || exit 2
 git checkout -q -- . 2>/dev/null
 export CARGO_NET_OFFLINE=true
 run_demo() {
+  if [ -f $O/run-demo.sh ]; then (cd $O && timeout 900 bash ./run-demo.sh >/dev/null 2>&1); return $?; fi
   if [ -f $O/run.sh ]; then (cd $O && timeout 900 bash ./run.sh >/dev/null 2>&1); return $?; fi
   if [ -x $O/demo/run.sh ]; then (cd $O/demo && timeout 300 ./run.sh >/dev/null 2>&1); return $?; fi
   if [ -f $O/demo/Cargo.toml ]; then (cd $O/demo && CARGO_TARGET_DIR=$O/demo/target timeout 600 cargo run --offline -q >/dev/null 2>&1); return $?; fi
